@@ -1,5 +1,5 @@
 import Ledger.Proofs.MachineKept
-import Ledger.Proofs.MachineBC5
+import Ledger.Proofs.MachineBC16
 
 /-!
 C22 — Numscript sends move exactly the requested amount.
@@ -205,16 +205,15 @@ theorem balances_track (s : Script) (inp : Input) (r : Result) (h : sem cfg s in
   simp only [hpost, g, ← e0]
   congr 1; omega
 
-/-- `balances_track` at the byte-code level, for the programs covered by the compiler
-    correctness proof (`CompileCovered`: no `send`; the tracked balances then only move by
-    `save`): the VM model `exec` on the compiled byte code tracks exactly
-    initial + postings - saved. -/
-theorem balances_track_bytecode (s : Script) (hcov : CompileCovered s) (p : Program)
+/-- `balances_track` at the byte-code level, for every compiled program (compiler
+    correctness `semBytecode_eq_sem_full`): the VM model `exec` on the compiled byte code
+    tracks exactly initial + postings - saved. -/
+theorem balances_track_bytecode (s : Script) (p : Program)
     (hc : compile s = .ok p) (inp : Input) (r : Result) (h : semBytecode Cfg.fixed s inp = .ok r)
     (a c : String) (ha : a ≠ "world") (v0 : Int) (hv : trackedInit Cfg.fixed s inp a c = some v0) :
     r.final.bal.get a c =
       some (inp.balance a c + flowIn a c r.postings - flowOut a c r.postings - r.final.saved a c) := by
-  rw [semBytecode_eq_sem hcov hc inp] at h
+  rw [semBytecode_eq_sem_full hc inp] at h
   exact (balances_track s inp r h a c ha v0 hv).2
 
 /-- `compiler_only_accepts_sum_one` (the compiler/VM side of C24): an allotment that
